@@ -2,3 +2,4 @@
     ensures
         r.qos == self.qos && r.spec_id() == Some(val), //@ C01+C11:publish_opts_record_the_packet_identifier
         self.spec_inv() ==> r.spec_inv(), //@ C01+C06:publish_opts_packet_identifier_keeps_the_invariant
+        r == self.spec_with_packet_identifier(val), //@ C01+C06+C11:publish_opts_with_identifier_is_the_options_plus_that_identifier
